@@ -37,7 +37,7 @@ def REQUIRED(tier):
 
 def _required(tier):
     return ["snapshots_taken", "snapshot_prefix_checks", "kill_children", "kill:died_at_point", "kill:survivor_opened", "truncations", "strace_runs", "strace_write_events",
-            "writers_covered", "snapshot:preexisting_output", "kill:preexisting_output", "snapshot:product_over_1MiB", "kill:unwound_by_exception", "strace:header_over_512_bytes_confirmed", "rewrites_of_an_opened_name", "rewrite:equal_length_products", "snapshot:product_ending_in_zero_blocks", "diskfull:writer_raised"]
+            "writers_covered", "snapshot:preexisting_output", "kill:preexisting_output", "snapshot:product_over_1MiB", "kill:unwound_by_exception", "strace:header_over_512_bytes_confirmed", "rewrites_of_an_opened_name", "rewrite:equal_length_products", "snapshot:product_ending_in_zero_blocks", "diskfull:writer_raised", "truncations:tim_product"]
 
 
 def EXHAUSTIVE(tier):
@@ -410,6 +410,29 @@ def _truncate(case, ctx):
             return
         if hl < L < len(full):
             ctx.nontrivial_case(one)
+    if nbits == 32:
+        # the same for a time-series product and its own reader: what survives of a .tim cut at any byte reads as its whole samples
+        from sigpyproc.timeseries import TimeSeries
+
+        tname = FilReader(src).collapse(gulp=7, quiet=True, description="v").to_tim(os.path.join(d, "full.tim"))
+        tfull = open(tname, "rb").read()
+        _, thl = sigfile.parse_header(tfull)
+        tdata = np.frombuffer(tfull[thl:], dtype=np.float32)
+        tcut = os.path.join(d, "cut.tim")
+        for L in range(thl + 1, len(tfull) + 1):
+            with open(tcut, "wb") as fh:
+                fh.write(tfull[:L])
+            ctx.evaluated(); ctx.count("truncations"); ctx.count("truncations:tim_product")
+            ks = (L - thl) // 4
+            one = dict(case, length=L, product="tim")
+            try:
+                ts = TimeSeries.from_tim(tcut) if ks else None
+                if ks and (ts.data.size != ks or not np.array_equal(np.asarray(ts.data), tdata[:ks])):
+                    ctx.violation("truncated-values:tim", f"length {L} (hdrlen {thl}): from_tim returns {ts.data.size} samples, {ks} complete samples present / values differ", one)
+                    return
+            except Exception as exc:  # noqa: BLE001
+                ctx.violation(f"truncated-unreadable:tim:{type(exc).__name__}@{exc_site(exc)}", f"length {L} (hdrlen {thl}, {ks} complete samples): {fmt_exc(exc)}", one)
+                return
     ctx.sample({"truncation_sweep": {"nbits": nbits, "nchans": nch, "hdrlen": hl, "file_len": len(full), "lengths_checked": len(full) - hl + 1}})
     shutil.rmtree(d, ignore_errors=True)
 
